@@ -29,6 +29,27 @@ theorem genesis_install_opens_iff (k : Nat) :
     simp only [h1, h2, h3, if_false]
     decide
 
+/-- **The passing prefixes are not all sound**: a first start killed after the range-proof hash file
+was written and before the commit (`k = 6, 7, 10`; `k = 8, 9` do not open at all) opens again, installs
+genesis a second time on top of the stale copy, and leaves the genesis output unspendable — for every
+other prefix that opens, the genesis output stays spendable. (Real node: `VERIF_STARTUP_SPEND_GENESIS=1
+crash startup`, crash points 24–33 and 40–44: a chain whose block 5 spends the genesis coinbase stops
+at b4 with `AlreadySpent`.) -/
+theorem genesis_reinstall_duplicates_iff (k : Nat) :
+    (recoverG (crashAfterG k) = none ∧ genesisOutputSpendable (crashAfterG k) = false) ↔
+      (k = 6 ∨ k = 7 ∨ k = 10) := by
+  by_cases h : k ≤ 11
+  · have : k = 0 ∨ k = 1 ∨ k = 2 ∨ k = 3 ∨ k = 4 ∨ k = 5 ∨ k = 6 ∨ k = 7 ∨ k = 8 ∨ k = 9 ∨ k = 10 ∨ k = 11 := by
+      omega
+    rcases this with rfl | rfl | rfl | rfl | rfl | rfl | rfl | rfl | rfl | rfl | rfl | rfl <;> decide
+  · have e : crashAfterG k = crashAfterG 11 := by
+      unfold crashAfterG
+      rw [List.take_of_length_le (by simp [genesisSteps]; omega), List.take_of_length_le (by simp [genesisSteps])]
+    rw [e]
+    constructor
+    · intro hh; exact absurd hh.2 (by decide)
+    · intro hh; omega
+
 /-- once `setup_head`'s commit is durable the node opens, whatever the files hold -/
 theorem committed_opens (g : GFiles) (h : g.committed = true) : recoverG g = none := by
   simp [recoverG, h]
